@@ -263,3 +263,114 @@ def early_exit_tests(fn: FuncInfo, node: ast.AST) -> List[ast.expr]:
 
     rec(fn.node.body, [])
     return out
+
+
+# ---------------------------------------------------------------------------------------------------------------
+class _SubstEnv(ast.NodeTransformer):
+    def __init__(self, env: dict):
+        self.env = env
+
+    def visit_Name(self, n: ast.Name):
+        if isinstance(n.ctx, ast.Load) and n.id in self.env:
+            import copy
+            return copy.deepcopy(self.env[n.id])
+        return n
+
+    def visit_Lambda(self, n):
+        return n
+
+
+def _subst_env(e: ast.AST, env: dict) -> ast.AST:
+    import copy
+    return ast.fix_missing_locations(_SubstEnv(env).visit(copy.deepcopy(e)))
+
+
+def cond_values(fn: FuncInfo, stop_at: Optional[ast.AST] = None, limit: int = 64):
+    """Symbolic values of fn's locals along every path through its straight-line / if-else code, up to (excluding) the
+    statement that contains stop_at (or to the end).  -> [(conditions, {name: fully substituted expression})].
+
+    Conditions are the normalised (substituted) tests, prefixed 'not ' on else edges.  Names bound inside loops / try /
+    with blocks are forgotten (their value there is not a single expression).  Paths that return or raise before the
+    stop point are dropped.
+    """
+    class Stop(Exception):
+        pass
+
+    def contains(s: ast.AST) -> bool:
+        return stop_at is not None and any(x is stop_at for x in ast.walk(s))
+
+    def run(body, paths):
+        """-> (paths continuing after body, paths that reached the stop point)"""
+        reached = []
+        for s in body:
+            if not paths:
+                break
+            if contains(s) and not isinstance(s, ast.If):
+                if isinstance(s, (ast.For, ast.While, ast.Try, ast.With)):
+                    killed = {n.id for n in ast.walk(s) if isinstance(n, ast.Name) and isinstance(n.ctx, ast.Store)}
+                    paths = [(c, {k: v for k, v in e.items() if k not in killed}) for c, e in paths]
+                reached.extend(paths)
+                return [], reached
+            if isinstance(s, (ast.Assign, ast.AnnAssign)):
+                if s.value is None:
+                    continue
+                tgts = s.targets if isinstance(s, ast.Assign) else [s.target]
+                new = []
+                for c, e in paths:
+                    e = dict(e)
+                    v = _subst_env(s.value, e)
+                    for t in tgts:
+                        if isinstance(t, ast.Name):
+                            e[t.id] = v
+                        elif isinstance(t, (ast.Tuple, ast.List)):
+                            if isinstance(v, (ast.Tuple, ast.List)) and len(v.elts) == len(t.elts):
+                                for x, xv in zip(t.elts, v.elts):
+                                    if isinstance(x, ast.Name):
+                                        e[x.id] = xv
+                            else:
+                                for x in ast.walk(t):
+                                    if isinstance(x, ast.Name):
+                                        e.pop(x.id, None)
+                        else:
+                            r = t
+                            while isinstance(r, (ast.Subscript, ast.Attribute)):
+                                r = r.value
+                            if isinstance(r, ast.Name):
+                                e.pop(r.id, None)       # the object changed in place
+                    new.append((c, e))
+                paths = new
+            elif isinstance(s, ast.AugAssign):
+                new = []
+                for c, e in paths:
+                    e = dict(e)
+                    if isinstance(s.target, ast.Name):
+                        if s.target.id in e:
+                            e[s.target.id] = ast.BinOp(left=e[s.target.id], op=s.op, right=_subst_env(s.value, e))
+                        else:
+                            e.pop(s.target.id, None)
+                    new.append((c, e))
+                paths = new
+            elif isinstance(s, ast.If):
+                tpaths, fpaths = [], []
+                for c, e in paths:
+                    t = norm(_subst_env(s.test, e))
+                    tpaths.append((c + (t,), e))
+                    fpaths.append((c + ('not ' + t,), e))
+                a, ra = run(s.body, tpaths)
+                b, rb = run(s.orelse, fpaths) if s.orelse else (fpaths, [])
+                reached.extend(ra + rb)
+                paths = a + b
+                if len(paths) + len(reached) > limit:
+                    raise OverflowError('too many paths')
+                if contains(s) and not paths:
+                    return [], reached
+            elif isinstance(s, (ast.Return, ast.Raise, ast.Continue, ast.Break)):
+                return [], reached
+            elif isinstance(s, (ast.For, ast.While, ast.Try, ast.With)):
+                killed = {n.id for n in ast.walk(s) if isinstance(n, ast.Name) and isinstance(n.ctx, ast.Store)}
+                paths = [(c, {k: v for k, v in e.items() if k not in killed}) for c, e in paths]
+            # other statements (Expr, Assert, Pass, ...) do not bind names
+        return paths, reached
+
+    cont, reached = run(fn.node.body, [((), {})])
+    return reached if stop_at is not None else cont
